@@ -36,6 +36,8 @@ type isoCase struct {
 	History  int       `json:"history"` // >0: the first History sessions run to completion one after another, the last one is the probe
 	// PortSpread 0: every session uses the same client port (from different hosts); 1: alternating ports
 	PortSpread int `json:"port_spread"`
+	// the vocabulary the sessions share (informational; the steps carry the bytes)
+	Shared map[string][]string `json:"shared,omitempty"`
 }
 
 type result struct {
@@ -349,102 +351,344 @@ func clip(b []byte) string {
 
 // ---------------------------------------------------------------- session generators with per-session markers
 
-func genSession(t *rapid.T, service string, slot int) session {
+// Besides its private marker every session draws arguments from a small vocabulary that
+// all sessions of the case share (INFO sections, key names, paths, user names, DNs ...),
+// each time in a drawn spelling (as is / upper / capitalised / mixed case). State that
+// leaks through a table or cache on the shared service object needs two sessions that
+// use the SAME key, possibly in different variants; private markers never collide.
+// None of the services stores client data that another client could legitimately read
+// back (redis and memcached answer every data command with a fixed text, tftp drops the
+// upload, http has one fixed response), except FTP's directory tree: there the shared
+// names are only used by commands that do not create anything.
+var vocabPools = map[string]map[string][]string{
+	"redis": {
+		"section": {"server", "clients", "memory", "keyspace", "all", "default", "bogus", "cpu", "stats", "replication"},
+		"key":     {"foo", "user:1", "session", "counter"},
+		"param":   {"dir", "dbfilename", "maxmemory", "*"},
+		"name":    {"cli", "worker"},
+		"db":      {"0", "1", "15"},
+	},
+	"memcached": {
+		"key":   {"foo", "user_1", "session", "counter"},
+		"value": {"bar", "1", "hello world"},
+	},
+	"http": {
+		"path":   {"/", "/index.html", "/admin/login.php", "/api/v1/status", "/robots.txt"},
+		"host":   {"example.com", "localhost", "10.0.0.1:80"},
+		"cookie": {"session=abc123", "lang=en; theme=dark"},
+		"agent":  {"curl/7.58.0", "Mozilla/5.0 (compatible; scanner)"},
+	},
+	"telnet": {
+		"user": {"root", "admin", "guest"},
+		"pass": {"root", "admin", "12345"},
+		"line": {"ls", "cat /etc/passwd", "uname -a", "enable", "sh", "", "help"},
+	},
+	"ldap": {
+		"dn":   {"cn=root,dc=example,dc=com", "cn=admin", "uid=jdoe,ou=people,dc=example,dc=com", "cn=root"},
+		"pass": {"root", "admin", "secret"},
+		"val":  {"jdoe", "root", "*"},
+	},
+	"ftp": {
+		"user": {"anonymous", "ftp", "root", "admin"},
+		"pass": {"anonymous", "root", "guest@example.com"},
+		"path": {"/", "pub", "/etc/passwd", "readme.txt", ".."},
+	},
+	"smtp": {
+		"domain": {"example.org", "mail.example.net", "localhost"},
+		"addr":   {"root@example.org", "postmaster@localhost", "info@example.net"},
+	},
+	"tftp": {
+		"file": {"firmware.bin", "config", "boot/pxelinux.0"},
+		"mode": {"octet", "netascii"},
+	},
+}
+
+// genShared draws the vocabulary of one case: 1-3 words per kind, so that sessions
+// meet on the same words often.
+func genShared(t *rapid.T, service string) map[string][]string {
+	pools := vocabPools[service]
+	kinds := make([]string, 0, len(pools))
+	for k := range pools {
+		kinds = append(kinds, k)
+	}
+	sort.Strings(kinds)
+	out := map[string][]string{}
+	for _, k := range kinds {
+		n := rapid.IntRange(1, 3).Draw(t, "nshared-"+k)
+		if n > len(pools[k]) {
+			n = len(pools[k])
+		}
+		out[k] = rapid.SliceOfNDistinct(rapid.SampledFrom(pools[k]), n, n, rapid.ID[string]).Draw(t, "shared-"+k)
+	}
+	return out
+}
+
+// spell returns w in one of its spellings: as is (half of the draws), upper case,
+// capitalised, or with a drawn subset of its letters in upper case.
+func spell(t *rapid.T, w string) string {
+	switch rapid.IntRange(0, 7).Draw(t, "spelling") {
+	case 4, 5:
+		return strings.ToUpper(w)
+	case 6:
+		if w == "" {
+			return w
+		}
+		return strings.ToUpper(w[:1]) + w[1:]
+	case 7:
+		b := []byte(w)
+		bits := rapid.Uint32().Draw(t, "caps")
+		for i := range b {
+			if bits>>(uint(i)%32)&1 == 1 && b[i] >= 'a' && b[i] <= 'z' {
+				b[i] -= 'a' - 'A'
+			}
+		}
+		return string(b)
+	}
+	return w
+}
+
+// mostly returns w in the spelling clients normally use, sometimes another one
+func mostly(t *rapid.T, w string) string {
+	if rapid.IntRange(0, 3).Draw(t, "odd-spelling") == 0 {
+		if w == strings.ToUpper(w) {
+			w = strings.ToLower(w)
+		}
+		return spell(t, w)
+	}
+	return w
+}
+
+func respArray(args ...string) []byte {
+	var b bytes.Buffer
+	fmt.Fprintf(&b, "*%d\r\n", len(args))
+	for _, a := range args {
+		fmt.Fprintf(&b, "$%d\r\n%s\r\n", len(a), a)
+	}
+	return b.Bytes()
+}
+
+func genSession(t *rapid.T, service string, slot int, shared map[string][]string) session {
 	m := fmt.Sprintf("m%dx%s", slot, rapid.StringMatching("[a-z]{3}").Draw(t, "marker"))
 	var s session
 	add := func(name string, wire []byte) {
 		s.Names = append(s.Names, name)
 		s.Steps = append(s.Steps, vlib.Hex(wire))
 	}
+	// a word of the case's shared vocabulary in a drawn spelling
+	word := func(kind string) string {
+		return spell(t, rapid.SampledFrom(shared[kind]).Draw(t, kind))
+	}
+	// the session's own marker (own) or a shared word
+	arg := func(kind, own string) string {
+		if rapid.IntRange(0, 2).Draw(t, "own-"+kind) == 0 {
+			return own
+		}
+		return word(kind)
+	}
 	n := rapid.IntRange(2, 6).Draw(t, "nsteps")
 	switch service {
 	case "ftp":
-		add("USER", []byte("USER anonymous\r\n"))
-		add("PASS", []byte("PASS "+rapid.SampledFrom([]string{"anonymous", "anonymous", "wrong"}).Draw(t, "pass")+"\r\n"))
+		user := "anonymous"
+		if rapid.IntRange(0, 3).Draw(t, "other-user") == 0 {
+			user = word("user")
+		}
+		add("USER", []byte(mostly(t, "USER")+" "+user+"\r\n"))
+		pass := rapid.SampledFrom([]string{"anonymous", "anonymous", "wrong"}).Draw(t, "pass")
+		if rapid.IntRange(0, 3).Draw(t, "other-pass") == 0 {
+			pass = word("pass")
+		}
+		add("PASS", []byte(mostly(t, "PASS")+" "+pass+"\r\n"))
 		for i := 0; i < n; i++ {
-			c := rapid.SampledFrom([]string{"PWD", "MKD " + m, "CWD " + m, "CDUP", "PWD", "RMD " + m, "CWD /", "SYST", "NOOP", "RNFR " + m, "SIZE " + m, "FEAT", "HELP", "STAT", "TYPE I", "MODE S", "OPTS UTF8 ON", "ALLO 10", "REST 0", "XPWD", "XMKD " + m + "x", "XRMD " + m + "x", "DELE " + m}).Draw(t, "cmd")
-			add(strings.Fields(c)[0], []byte(c+"\r\n"))
+			c := rapid.SampledFrom([]string{"PWD", "MKD " + m, "CWD " + m, "CDUP", "PWD", "RMD " + m, "CWD /", "SYST", "NOOP", "RNFR " + m, "SIZE " + m, "FEAT", "HELP", "STAT", "TYPE I", "MODE S", "OPTS UTF8 ON", "ALLO 10", "REST 0", "XPWD", "XMKD " + m + "x", "XRMD " + m + "x", "DELE " + m,
+				// shared names, only with commands that create nothing (not MDTM: its reply is a time stamp)
+				"CWD ?", "SIZE ?", "RNFR ?", "XCWD ?"}).Draw(t, "cmd")
+			f := strings.SplitN(c, " ", 2)
+			c = mostly(t, f[0])
+			if len(f) > 1 {
+				if f[1] == "?" {
+					f[1] = word("path")
+				}
+				c += " " + f[1]
+			}
+			add(f[0], []byte(c+"\r\n"))
 		}
 	case "smtp":
-		add("EHLO", []byte("EHLO "+m+".example\r\n"))
+		// who the session claims to be: its marker or a shared name
+		domain := arg("domain", m+".example")
+		add("EHLO", []byte(mostly(t, "EHLO")+" "+domain+"\r\n"))
 		for i := 0; i < n; i++ {
-			switch rapid.SampledFrom([]string{"mail", "bdat", "bdat-abandoned", "noop", "rset", "vrfy"}).Draw(t, "unit") {
+			from := arg("addr", m+"@example.org")
+			switch rapid.SampledFrom([]string{"mail", "bdat", "bdat-abandoned", "noop", "rset", "vrfy", "help"}).Draw(t, "unit") {
 			case "bdat":
-				add("MAIL", []byte("MAIL FROM:<"+m+"@example.org>\r\n"))
+				add("MAIL", []byte("MAIL FROM:<"+from+">\r\n"))
 				msg := "Subject: bdat-" + m + "\r\n\r\nchunked body of " + m + "\r\n"
 				add("BDAT-LAST", []byte(fmt.Sprintf("BDAT %d LAST\r\n%s", len(msg), msg)))
 			case "bdat-abandoned":
 				// a first chunk that is never completed (client resets or just leaves)
-				add("MAIL", []byte("MAIL FROM:<"+m+"@example.org>\r\n"))
+				add("MAIL", []byte("MAIL FROM:<"+from+">\r\n"))
 				chunk := "Subject: abandoned-" + m + "\r\n\r\nstale bytes of " + m + "\r\n"
 				add("BDAT", []byte(fmt.Sprintf("BDAT %d\r\n%s", len(chunk), chunk)))
 				if rapid.Bool().Draw(t, "rset") {
 					add("RSET", []byte("RSET\r\n"))
 				}
 			case "mail":
-				add("MAIL", []byte("MAIL FROM:<"+m+"@example.org>\r\n"))
-				add("RCPT", []byte("RCPT TO:<rcpt-"+m+"@example.net>\r\n"))
+				add("MAIL", []byte(mostly(t, "MAIL FROM")+":<"+from+">\r\n"))
+				add("RCPT", []byte(mostly(t, "RCPT TO")+":<"+arg("addr", "rcpt-"+m+"@example.net")+">\r\n"))
 				add("DATA", []byte("DATA\r\n"))
-				add("message", []byte("Subject: "+m+"\r\n\r\nbody of "+m+"\r\n.\r\n"))
+				add("message", []byte("From: "+from+"\r\nSubject: "+m+"\r\n\r\nbody of "+m+"\r\n.\r\n"))
 			case "noop":
-				add("NOOP", []byte("NOOP\r\n"))
+				add("NOOP", []byte(mostly(t, "NOOP")+"\r\n"))
 			case "rset":
-				add("RSET", []byte("RSET\r\n"))
+				add("RSET", []byte(mostly(t, "RSET")+"\r\n"))
+			case "help":
+				add("HELP", []byte(mostly(t, "HELP")+"\r\n"))
 			default:
-				add("VRFY", []byte("VRFY "+m+"\r\n"))
+				add("VRFY", []byte("VRFY "+arg("addr", m)+"\r\n"))
 			}
 		}
 	case "telnet":
-		add("user", []byte("user"+m+"\r\n"))
-		add("pass", []byte("pw"+m+"\r\n"))
+		add("user", []byte(arg("user", "user"+m)+"\r\n"))
+		add("pass", []byte(arg("pass", "pw"+m)+"\r\n"))
 		for i := 0; i < n; i++ {
-			add("line", []byte(rapid.SampledFrom([]string{"ls", "cat /etc/passwd", "echo "}).Draw(t, "cmd")+" "+m+"\r\n"))
+			if rapid.Bool().Draw(t, "shared-line") {
+				// the very same command line as other sessions type
+				add("line", []byte(word("line")+"\r\n"))
+			} else {
+				add("line", []byte(rapid.SampledFrom([]string{"ls", "cat /etc/passwd", "echo "}).Draw(t, "cmd")+" "+m+"\r\n"))
+			}
 		}
 	case "redis":
+		// the service implements INFO only, every other command gets the same fixed error
+		// text whatever was sent before: no reply depends on stored data
 		for i := 0; i < n; i++ {
-			name := rapid.SampledFrom([]string{"INFO", "GET", "SET", "PING"}).Draw(t, "cmd") + m
-			add(name, []byte(fmt.Sprintf("*2\r\n$%d\r\n%s\r\n$%d\r\n%s\r\n", len(name), name, len(m), m)))
+			var a []string
+			switch rapid.SampledFrom([]string{"info", "info", "info", "info", "info-plain", "info-two", "key", "key", "config", "client", "select", "plain", "glued"}).Draw(t, "cmd") {
+			case "info":
+				sec := word("section")
+				if rapid.IntRange(0, 7).Draw(t, "own-section") == 0 {
+					sec = m
+				}
+				a = []string{spell(t, "info"), sec}
+			case "info-plain":
+				a = []string{spell(t, "info")}
+			case "info-two":
+				a = []string{spell(t, "info"), word("section"), word("section")}
+			case "key":
+				c := rapid.SampledFrom([]string{"GET", "SET", "DEL", "EXISTS", "INCR", "EXPIRE", "TYPE", "KEYS"}).Draw(t, "keycmd")
+				a = []string{mostly(t, c), arg("key", m)}
+				switch c {
+				case "SET":
+					a = append(a, m)
+				case "EXPIRE":
+					a = append(a, "100")
+				}
+			case "config":
+				a = []string{mostly(t, "CONFIG"), mostly(t, "GET"), arg("param", m)}
+				if rapid.IntRange(0, 3).Draw(t, "config-set") == 0 {
+					a = []string{mostly(t, "CONFIG"), mostly(t, "SET"), arg("param", m), m}
+				}
+			case "client":
+				if rapid.Bool().Draw(t, "setname") {
+					a = []string{mostly(t, "CLIENT"), mostly(t, "SETNAME"), arg("name", m)}
+				} else {
+					a = []string{mostly(t, "CLIENT"), mostly(t, rapid.SampledFrom([]string{"GETNAME", "LIST", "ID"}).Draw(t, "clientcmd"))}
+				}
+			case "select":
+				a = []string{mostly(t, "SELECT"), word("db")}
+			case "plain":
+				a = []string{mostly(t, rapid.SampledFrom([]string{"PING", "DBSIZE", "COMMAND", "FLUSHALL", "SAVE", "ROLE"}).Draw(t, "plaincmd"))}
+				if a[0] == "PING" && rapid.Bool().Draw(t, "ping-arg") {
+					a = append(a, m)
+				}
+			default:
+				// the marker glued to the command name: shows up in the error reply and the event
+				a = []string{rapid.SampledFrom([]string{"INFO", "GET", "SET", "PING"}).Draw(t, "gluedcmd") + m, m}
+			}
+			add(strings.Join(a, " "), respArray(a...))
 		}
 	case "memcached":
 		for i := 0; i < n; i++ {
-			switch rapid.SampledFrom([]string{"get", "set", "stats"}).Draw(t, "cmd") {
+			switch rapid.SampledFrom([]string{"get", "get", "store", "store", "key", "flush", "stats", "version"}).Draw(t, "cmd") {
 			case "get":
-				add("get", []byte("get "+m+"\r\n"))
-			case "set":
-				add("set", []byte(fmt.Sprintf("set %s 0 0 %d\r\n%s\r\n", m, len(m), m)))
+				c := mostly(t, rapid.SampledFrom([]string{"get", "gets"}).Draw(t, "getcmd")) + " " + arg("key", m)
+				if rapid.IntRange(0, 3).Draw(t, "two-keys") == 0 {
+					c += " " + arg("key", m)
+				}
+				add("get", []byte(c+"\r\n"))
+			case "store":
+				c := rapid.SampledFrom([]string{"set", "set", "add", "replace", "append", "prepend", "cas"}).Draw(t, "storecmd")
+				val := arg("value", m)
+				line := fmt.Sprintf("%s %s %d %d %d", mostly(t, c), arg("key", m), rapid.SampledFrom([]int{0, 0, 1, 42}).Draw(t, "flags"), rapid.SampledFrom([]int{0, 0, 60}).Draw(t, "exp"), len(val))
+				if c == "cas" {
+					line += " 7"
+				}
+				add(c, []byte(line+"\r\n"+val+"\r\n"))
+			case "key":
+				c := rapid.SampledFrom([]string{"delete", "incr", "decr", "touch"}).Draw(t, "keycmd")
+				line := mostly(t, c) + " " + arg("key", m)
+				if c != "delete" {
+					line += " 1"
+				}
+				add(c, []byte(line+"\r\n"))
+			case "flush":
+				add("flush_all", []byte(mostly(t, "flush_all")+"\r\n"))
+			case "version":
+				add("version", []byte(mostly(t, "version")+"\r\n"))
 			default:
-				add("stats", []byte("stats\r\n"))
+				c := mostly(t, "stats")
+				if rapid.IntRange(0, 2).Draw(t, "stats-arg") == 0 {
+					c += " " + rapid.SampledFrom([]string{"items", "slabs", "settings"}).Draw(t, "statsarg")
+				}
+				add("stats", []byte(c+"\r\n"))
 			}
 		}
 	case "http":
 		for i := 0; i < n; i++ {
-			if rapid.Bool().Draw(t, "post") {
-				add("POST", []byte(fmt.Sprintf("POST /%s HTTP/1.1\r\nHost: %s\r\nContent-Length: %d\r\n\r\n%s", m, m, len(m), m)))
-			} else {
-				add("GET", []byte(fmt.Sprintf("GET /%s?i=%d HTTP/1.1\r\nHost: %s\r\nX-Marker: %s\r\n\r\n", m, i, m, m)))
+			path := arg("path", "/"+m)
+			host := arg("host", m)
+			hdr := ""
+			if rapid.Bool().Draw(t, "cookie") {
+				hdr += mostly(t, "Cookie") + ": " + arg("cookie", "id="+m) + "\r\n"
+			}
+			if rapid.Bool().Draw(t, "agent") {
+				hdr += mostly(t, "User-Agent") + ": " + arg("agent", m) + "\r\n"
+			}
+			method := rapid.SampledFrom([]string{"GET", "GET", "POST", "POST", "PUT", "DELETE", "OPTIONS"}).Draw(t, "method")
+			switch method {
+			case "POST", "PUT":
+				add(method, []byte(fmt.Sprintf("%s %s HTTP/1.1\r\nHost: %s\r\n%sContent-Length: %d\r\n\r\n%s", method, path, host, hdr, len(m), m)))
+			default:
+				add(method, []byte(fmt.Sprintf("%s %s?i=%d HTTP/1.1\r\nHost: %s\r\n%sX-Marker: %s\r\n\r\n", method, path, i, host, hdr, m)))
 			}
 		}
 	case "ldap":
 		id := 1
 		for i := 0; i < n; i++ {
 			id++
-			switch rapid.SampledFrom([]string{"bind-ok", "bind-bad", "bind-anon", "modify", "add", "delete", "compare", "search", "search-dse"}).Draw(t, "op") {
+			dn := arg("dn", "cn="+m)
+			switch rapid.SampledFrom([]string{"bind-ok", "bind-bad", "bind-anon", "bind", "modify", "add", "delete", "compare", "search", "search", "search-dse"}).Draw(t, "op") {
 			case "bind-ok":
 				add("bind-ok", svc.LDAPBind(id, "cn=root,dc="+m, "root"))
 			case "bind-bad":
 				add("bind-bad", svc.LDAPBind(id, "cn=root,dc="+m, "bad"+m))
 			case "bind-anon":
 				add("bind-anon", svc.LDAPBind(id, "", ""))
+			case "bind":
+				add("bind", svc.LDAPBind(id, dn, arg("pass", "pw"+m)))
 			case "modify":
-				add("modify", svc.LDAPModify(id, "cn="+m))
+				add("modify", svc.LDAPModify(id, dn))
 			case "add":
-				add("add", svc.LDAPAdd(id, "cn="+m))
+				add("add", svc.LDAPAdd(id, dn))
 			case "delete":
-				add("delete", svc.LDAPDelete(id, "cn="+m))
+				add("delete", svc.LDAPDelete(id, dn))
 			case "compare":
-				add("compare", svc.LDAPCompare(id, "cn="+m, "cn", m))
+				add("compare", svc.LDAPCompare(id, dn, "cn", arg("val", m)))
 			case "search":
-				add("search", svc.LDAPSearch(id, "dc="+m, "uid", m))
+				base := "dc=" + m
+				if rapid.Bool().Draw(t, "shared-base") {
+					base = word("dn")
+				}
+				add("search", svc.LDAPSearch(id, base, mostly(t, rapid.SampledFrom([]string{"uid", "givenName", "cn"}).Draw(t, "attr")), arg("val", m)))
 			default:
 				add("search-dse", svc.LDAPSearch(id, "", "", "*"))
 			}
@@ -454,6 +698,10 @@ func genSession(t *rapid.T, service string, slot int) session {
 		if n > 4 {
 			n = 4
 		}
+		// the service keys a transfer by the client address and keeps nothing afterwards,
+		// so the same file name may be used by several sessions
+		file := arg("file", m+".bin")
+		mode := word("mode")
 		// clients also send what the protocol does not expect at that point: a DATA block
 		// without an open transfer (retransmission after the transfer ended, lost WRQ), a
 		// read request (an ACK gets no reply at all, which the lock-step runner would wait for)
@@ -467,10 +715,10 @@ func genSession(t *rapid.T, service string, slot int) session {
 				n = 3
 			}
 		case "rrq":
-			add("rrq", append([]byte{0, 1}, []byte(m+".bin\x00octet\x00")...))
+			add("rrq", append([]byte{0, 1}, []byte(file+"\x00"+mode+"\x00")...))
 			return s
 		}
-		add("wrq", append([]byte{0, 2}, []byte(m+".bin\x00octet\x00")...))
+		add("wrq", append([]byte{0, 2}, []byte(file+"\x00"+mode+"\x00")...))
 		for i := 1; i < n; i++ {
 			last := i == n-1
 			sz := 512
@@ -536,15 +784,16 @@ func TestInterleavings(t *testing.T) {
 		}
 		return
 	}
-	r.Rule("for ldap, ftp, smtp, telnet, redis, memcached, http, tftp: 2-3 scripted sessions (2-8 lock-step request/response steps, per-session marker strings, distinct client addresses) on a FRESH server instance per run; a drawn interleaving of their steps plus, for small cases (<=7 steps in total), ALL merges; oracle = differential: bytes received and events recorded (by source address) for each session equal those of the same session alone on a fresh instance; one session id per connection, never shared; non-trivial = >=2 sessions mid-dialogue with >=1 alternation; distinct by sessions+order")
+	r.Rule("for ldap, ftp, smtp, telnet, redis, memcached, http, tftp: 2-3 scripted sessions (2-8 lock-step request/response steps, per-session marker strings next to a per-case vocabulary of 1-3 arguments per kind that all sessions share - INFO sections, keys, paths, hosts, user names, DNs, file names - each use in a drawn spelling: as is / upper / capitalised / mixed case; command names in drawn case too; distinct client addresses) on a FRESH server instance per run; a drawn interleaving of their steps plus, for small cases (<=7 steps in total), ALL merges; oracle = differential: bytes received and events recorded (by source address) for each session equal those of the same session alone on a fresh instance; one session id per connection, never shared; non-trivial = >=2 sessions mid-dialogue with >=1 alternation; distinct by sessions+order")
 	r.Rapid(t, "TestInterleavings", r.Pick(70, 700), func(rt *rapid.T) {
 		service := rapid.SampledFrom(services).Draw(rt, "service")
 		c := isoCase{Service: service, UDP: service == "tftp", PortSpread: rapid.IntRange(0, 1).Draw(rt, "portspread")}
+		c.Shared = genShared(rt, service)
 		k := rapid.IntRange(2, 3).Draw(rt, "nsessions")
 		var counts []int
 		total := 0
 		for i := 0; i < k; i++ {
-			s := genSession(rt, service, i)
+			s := genSession(rt, service, i, c.Shared)
 			c.Sessions = append(c.Sessions, s)
 			counts = append(counts, len(s.Steps))
 			total += len(s.Steps)
@@ -590,14 +839,15 @@ func TestHistories(t *testing.T) {
 		}
 		return
 	}
-	r.Rule("sequential histories: N in 1..20 earlier sessions run to completion one after another on a fresh instance, then a probe session; oracle = the probe's bytes and events equal those of the probe alone on a fresh instance; non-trivial = >=1 earlier session that changed state (login / cwd / mail)")
+	r.Rule("sequential histories: N in 1..20 earlier sessions run to completion one after another on a fresh instance, then a probe session (same session grammar incl. the shared vocabulary in drawn spellings); oracle = the probe's bytes and events equal those of the probe alone on a fresh instance; non-trivial = >=1 earlier session that changed state (login / cwd / mail)")
 	r.Rapid(t, "TestHistories", r.Pick(50, 500), func(rt *rapid.T) {
 		service := rapid.SampledFrom(services).Draw(rt, "service")
 		c := isoCase{Service: service, UDP: service == "tftp", PortSpread: rapid.IntRange(0, 1).Draw(rt, "portspread")}
 		n := rapid.OneOf(rapid.IntRange(1, 4), rapid.IntRange(1, 20)).Draw(rt, "nhistory")
 		c.History = n
+		c.Shared = genShared(rt, service)
 		for i := 0; i <= n; i++ {
-			s := genSession(rt, service, i)
+			s := genSession(rt, service, i, c.Shared)
 			c.Sessions = append(c.Sessions, s)
 			for range s.Steps {
 				c.Order = append(c.Order, i)
